@@ -340,7 +340,7 @@ inline bool g_shrinking = false;
 template <typename Case>
 inline void mismatch(char const* sub, Case const& c, std::string const& detail)
 {
-    if (ctx().memory_only) {
+    if (ctx().memory_only && detail.find("lifetime:") == std::string::npos) {
         ++stats().functional_mismatch_ignored;
         return;
     }
